@@ -59,11 +59,24 @@ package odt
 // (the ODT reader ignores covered-table-cell elements: this bookkeeping alone decides where the cells of the
 // following rows land; rowSpansRemaining[c] = rows still to be covered in column c)
 //@ func (*TableParser) processRowSpans
-//@   property C15
-//@   flags nosafety
+//@   property C15, C02
+//@   requires !isnil(table) && forall r int, k int :: {table.Rows[r].Cells[k]} 0 <= r && r < len(table.Rows) && 0 <= k && k < len(table.Rows[r].Cells) ==> table.Rows[r].Cells[k].ColSpan >= 1
+//@   loop 0:
+//@     invariant colCount >= 0
+//@   loop 2:
+//@     invariant colCount >= 0 && len(rowSpansRemaining) == colCount && len(table.Rows) == entry(len(table.Rows))
+//@     invariant forall r int, k int :: {table.Rows[r].Cells[k]} $i <= r && r < len(table.Rows) && 0 <= k && k < len(table.Rows[r].Cells) ==> table.Rows[r].Cells[k].ColSpan >= 1
+//@   loop 4:
+//@     invariant colIdx >= 0 && len(rowSpansRemaining) == colCount
+//@     decreases colCount - colIdx
+//@   loop 6:
+//@     invariant colIdx >= 0 && len(rowSpansRemaining) == colCount
+//@     decreases colCount - colIdx
 //@   loop 3:
+//@     invariant colIdx >= 0 && len(rowSpansRemaining) == colCount && len(table.Rows) == entry(len(table.Rows)) && same(table.Rows, entry(table.Rows))
 //@     step a_row_spanning_cell_covers_all_its_columns_below: cell.RowSpan > 1 && cell.ColSpan >= 1 ==> forall k int :: {rowSpansRemaining[k]} colIdx - cell.ColSpan <= k && k < colIdx && k < colCount ==> rowSpansRemaining[k] == cell.RowSpan - 1
 //@   loop 5:
+//@     decreases cell.ColSpan - c
 //@     invariant 0 <= c && len(rowSpansRemaining) == entry(len(rowSpansRemaining)) && forall k int :: {rowSpansRemaining[k]} colIdx <= k && k < colIdx + c && k < colCount ==> rowSpansRemaining[k] == cell.RowSpan - 1
 
 // ---- C02: spans come from the document; one cell spans at most maxTableColumns columns and the cells of one row
@@ -81,8 +94,18 @@ package odt
 //@   property C02
 //@   flags nosafety
 //@   ensures row_width_is_bounded: len(res.Cells) == len(row.Cells) && odtRowWidth(res.Cells, len(res.Cells)) <= maxTableColumns + len(res.Cells)
+//@   ensures every_cell_spans_at_least_one_column: forall k int :: {res.Cells[k]} 0 <= k && k < len(res.Cells) ==> res.Cells[k].ColSpan >= 1
 //@   loop 0:
 //@     invariant len(parsed.Cells) == $i && width == odtRowWidth(parsed.Cells, len(parsed.Cells)) && 0 <= width && width <= maxTableColumns + $i
+//@     invariant forall k int :: {parsed.Cells[k]} 0 <= k && k < len(parsed.Cells) ==> parsed.Cells[k].ColSpan >= 1
+
+// the bookkeeping of row spans indexes rowSpansRemaining by column: every index is within the column count (safety
+// obligations are ON for this function; the spans of the cells are at least 1, established by parseRow for every row)
+//@ func (*TableParser) ParseTable results (res)
+//@   property C02
+//@   flags nosafety
+//@   loop 0:
+//@     invariant forall r int, k int :: {parsed.Rows[r].Cells[k]} 0 <= r && r < len(parsed.Rows) && 0 <= k && k < len(parsed.Rows[r].Cells) ==> parsed.Rows[r].Cells[k].ColSpan >= 1
 
 // ---- C11: a body paragraph is deleted only when it EQUALS (after trimming) a non-empty line of a header or footer
 // part, and only for the side that was asked for; nothing is deleted otherwise ----
